@@ -331,6 +331,11 @@ func (co *Conn) Read(p []byte) (n int, err error) {
 		return 0, err
 	}
 	if int(length) > len(p) {
+		// Take the message off the stream, or the next Read would find its
+		// length prefix somewhere inside this one.
+		if _, err := io.CopyN(io.Discard, co.Conn, int64(length)); err != nil {
+			return 0, err
+		}
 		return 0, io.ErrShortBuffer
 	}
 
